@@ -1,7 +1,7 @@
 import Driver.Util
 import Driver.PyJson
 import Driver.C07
-import Torf.Model.Write
+import Torf.Spec.Write
 open Lean Torf Torf.Export Torf.Validate Torf.Write
 namespace Driver.C17
 
@@ -9,13 +9,49 @@ def nodeJson : Node → Json
   | .absent => jobj [("k", "absent")]
   | .file c => jobj [("k", "file"), ("content", jstr (hexOf c))]
   | .dir => jobj [("k", "dir")]
+  | .other => jobj [("k", "other")]
 
 def getNode (j : Json) : Except String Node := do
   match (← getStr j "k") with
   | "absent" => pure .absent
   | "dir" => pure .dir
+  | "other" => pure .other
   | "file" => return .file (← getHex j "content")
   | k => throw s!"unknown node kind {k}"
+
+def optNat (j : Json) (k : String) : Option Nat := (j.getObjValAs? Nat k).toOption
+def optBool (j : Json) (k : String) (dflt : Bool) : Bool := (j.getObjValAs? Bool k).toOption.getD dflt
+
+/-- {existsAns, openErr?, quota?, closeErr?} -/
+def getEnv (j : Json) : Except String Env := do
+  pure { existsAns := (← getBool j "existsAns"), openErr := optBool j "openErr" false,
+         quota := optNat j "quota", closeErr := optBool j "closeErr" false }
+
+/-- {content, pos, seekable?, append?, readOnly?, text?, calls?, faultAt?, quota?, short?} -/
+def getStream (j : Json) : Except String Stream := do
+  pure { content := (← getHex j "content"), pos := (← getNat j "pos"),
+         seekable := optBool j "seekable" true, append := optBool j "append" false,
+         readOnly := optBool j "readOnly" false, text := optBool j "text" false,
+         calls := (optNat j "calls").getD 0, faultAt := optNat j "faultAt", quota := optNat j "quota",
+         short := optBool j "short" false }
+
+def errOfStr (s : String) : ErrKind :=
+  if s == "metainfo" then .metainfo
+  else if s == "write" then .write
+  else if s == "value" then .value
+  else if s.startsWith "internal:" then .internal (s.drop 9).toString
+  else .internal s
+
+/-- an observed result: {"ok": …} | {"err": kind} -/
+def getResUnit (j : Json) : Except String (Except ErrKind Unit) :=
+  match j.getObjValAs? String "err" with
+  | .ok e => pure (.error (errOfStr e))
+  | .error _ => pure (.ok ())
+
+def getResBytes (j : Json) : Except String (Except ErrKind Bytes) := do
+  match j.getObjValAs? String "err" with
+  | .ok e => pure (.error (errOfStr e))
+  | .error _ => return .ok (← getHex j "ok")
 
 /-- the content producer: `dump(validate=…)` of the C07 model on the given metainfo -/
 def producer (j : Json) : Except String (Except ErrKind Bytes) := do
@@ -24,44 +60,57 @@ def producer (j : Json) : Except String (Except ErrKind Bytes) := do
   let validate := (j.getObjValAs? Bool "validate").toOption.getD true
   pure (if validate then dump urlOk noPath md else dumpNoValidate md)
 
-/-- op `c17.write`: {md, urls, validate?, overwrite, node, parentOk} -/
+def hypOf (j : Json) : Except String Bool := do
+  let md ← C07.getItems j
+  pure (C07.sumAbs (.dict md) < 2 ^ 53 && C07.depth (.dict md) ≤ 100)
+
+/-- op `c17.write`: {md, urls, validate?, overwrite, node, env} — the model, judged by `fileSpec` -/
 def write (j : Json) : Except String Json := do
   let d ← producer j
   let ov ← getBool j "overwrite"
-  let node ← getNode (← j.getObjVal? "node")
-  let parentOk ← getBool j "parentOk"
-  let t : Target := { node := node, parentOk := parentOk }
-  let (r, t', log) := Write.write d ov none t
-  -- executable specification (what C17 demands), independent of the model's control flow
-  let refused := !ov && t.exists_
-  let specOk : Bool :=
-    match r with
-    | .error _ => t' == t
-    | .ok _ => (match d with | .ok c => t'.node == .file c | .error _ => false) && !refused
-  return jobj [("result", C07.resUnit r), ("node", nodeJson t'.node), ("specOk", jbool specOk),
+  let t : Target := { node := (← getNode (← j.getObjVal? "node")), env := (← getEnv (← j.getObjVal? "env")) }
+  let (r, t', log) := Write.write d ov t
+  return jobj [("result", C07.resUnit r), ("node", nodeJson t'.node), ("specOk", jbool (fileSpec d ov t r t')),
                ("dump", C07.resBytes d), ("log", jarr (log.map fun e => jstr (reprStr e))),
-               ("hyp", jbool (C07.sumAbs (.dict (← C07.getItems j)) < 2 ^ 53 && C07.depth (.dict (← C07.getItems j)) ≤ 100))]
+               ("hyp", jbool (← hypOf j))]
 
-/-- op `c17.stream`: {md, urls, validate?, seekable, content, pos, writeFails} -/
+/-- op `c17.stream`: {md, urls, validate?, stream} — the model, judged by `streamSpec` -/
 def stream (j : Json) : Except String Json := do
   let d ← producer j
-  let s : Stream := { seekable := (← getBool j "seekable"), content := (← getHex j "content"),
-                      pos := (← getNat j "pos"), writeFails := (← getBool j "writeFails") }
+  let s ← getStream (← j.getObjVal? "stream")
   let (r, s') := Write.writeStream d s
-  let specOk : Bool :=
-    match d, r with
-    | .error e, .error e' => e == e' && s' == s
-    | .ok c, .ok _ => if s.seekable then s'.content == c else s'.content == s.content ++ c
-    | .ok _, .error e => e == .write && s.writeFails
-    | _, _ => false
+  -- the hypothesis of C17_stream_meets_spec_partial (false = raw stream that takes only part: D17a)
+  let partialHyp : Bool := !s.short || (match d with | .ok c => c.length ≤ s.accepts c.length | .error _ => true)
   return jobj [("result", C07.resUnit r), ("content", jstr (hexOf s'.content)), ("pos", jnat s'.pos),
-               ("specOk", jbool specOk), ("dump", C07.resBytes d),
-               ("hyp", jbool (C07.sumAbs (.dict (← C07.getItems j)) < 2 ^ 53 && C07.depth (.dict (← C07.getItems j)) ≤ 100))]
+               ("calls", jnat s'.calls), ("specOk", jbool (streamSpec d s r s')), ("dump", C07.resBytes d),
+               ("partialHyp", jbool partialHyp),
+               ("hyp", jbool (← hypOf j))]
+
+/-- op `c17.judge.write`: the *implementation's* outcome against `fileSpec`;
+    {dump (observed), overwrite, node, env, result (observed), nodeAfter (observed)} -/
+def judgeWrite (j : Json) : Except String Json := do
+  let d ← getResBytes (← j.getObjVal? "dump")
+  let ov ← getBool j "overwrite"
+  let t : Target := { node := (← getNode (← j.getObjVal? "node")), env := (← getEnv (← j.getObjVal? "env")) }
+  let r ← getResUnit (← j.getObjVal? "result")
+  let t' : Target := { node := (← getNode (← j.getObjVal? "nodeAfter")), env := t.env }
+  return jobj [("accepted", jbool (fileSpec d ov t r t'))]
+
+/-- op `c17.judge.stream`: {dump, stream, result, contentAfter, posAfter?, callsAfter?} -/
+def judgeStream (j : Json) : Except String Json := do
+  let d ← getResBytes (← j.getObjVal? "dump")
+  let s ← getStream (← j.getObjVal? "stream")
+  let r ← getResUnit (← j.getObjVal? "result")
+  let s' : Stream := { s with content := (← getHex j "contentAfter"), pos := (optNat j "posAfter").getD s.pos,
+                              calls := (optNat j "callsAfter").getD s.calls }
+  return jobj [("accepted", jbool (streamSpec d s r s'))]
 
 def handle (op : String) (j : Json) : Except String Json :=
   match op with
   | "c17.write" => write j
   | "c17.stream" => stream j
+  | "c17.judge.write" => judgeWrite j
+  | "c17.judge.stream" => judgeStream j
   | _ => throw s!"unknown op {op}"
 
 end Driver.C17
